@@ -121,6 +121,7 @@ def prepare():
         fcntl.flock(lock, fcntl.LOCK_EX)
         text, status = gen.generate(REPO)
         b.translator = status
+        from harness.translate import tie; b.translator.update(tie.write(REPO, THEORIES))  # noqa: E401,E702  balance.py / computed_data.py tables -> Model/GeneratedTie.v
         _write_if_changed(os.path.join(THEORIES, "Model", "Generated.v"), text)
         vfiles = all_v_files()
         # dependency order is computed by coqdep; only the file list matters here
@@ -135,6 +136,8 @@ def prepare():
             src = os.path.join(COQ, v)
             if not os.path.exists(vo) or os.path.getmtime(vo) < os.path.getmtime(src):
                 b.failed.append(v)
+        for m in re.finditer(r"\*\*\* \[[^\]]*?(theories/[^\s\]]+)\.vo\] Error", out):   # failed now, but a stale .vo newer than the (unchanged) source is still there
+            b.failed += [m.group(1) + ".v"] if m.group(1) + ".v" in vfiles and m.group(1) + ".v" not in b.failed else []
         # extraction + driver (needs only Model/*.vo)
         model_vo = [os.path.join(COQ, v + "o") for v in vfiles if v.startswith("theories/Model/") or v.startswith("theories/Base/")]
         need = not os.path.exists(DRIVER)
